@@ -24,9 +24,10 @@ package storage
 
 // GetSelector / GetFilteredSelector hand out a selector created with the requested matchers, time
 // range and hints, and never touch the storage (C16, C17).
+//@ pred matchersOK(ms) = forall i in 0..len(ms) :: ms[i] != nil
 //@ func (*SelectorPool).GetSelector
-//@   requires p != nil && !isnil(p.selectors)
+//@   requires p != nil && !isnil(p.selectors) && matchersOK(matchers)
 //@   ensures result != nil
 //@ func (*SelectorPool).GetFilteredSelector
-//@   requires p != nil && !isnil(p.selectors)
+//@   requires p != nil && !isnil(p.selectors) && matchersOK(matchers) && matchersOK(filters)
 //@   ensures result != nil
